@@ -6,6 +6,7 @@ package control
 // Lean model driver c12drv.  One op per line; see lean/DaeVerif/C12/Main.lean.
 
 import (
+	"github.com/daeuniverse/dae/config"
 	"encoding/binary"
 	"encoding/hex"
 	"fmt"
@@ -420,6 +421,17 @@ func TestVerifC12(t *testing.T) {
 			pool = append(pool, s)
 		}
 		nUse := 2 + r.Intn(6)
+		if si%4 == 1 {
+			nDistinct, nUse = 6+r.Intn(6), 8+r.Intn(8) // more than 4 distinct sets: BuildUserspace takes its parallel path
+			for len(pool) < nDistinct {
+				k := 1 + r.Intn(4)
+				s := make([]netip.Prefix, k)
+				for j := range s {
+					s[j] = c12RandPrefix(r, stats)
+				}
+				pool = append(pool, s)
+			}
+		}
 		var sets [][]netip.Prefix
 		if si%3 == 0 {
 			// Constructed FNV collisions: the hash runs over an undelimited stream of
@@ -575,7 +587,75 @@ func TestVerifC12(t *testing.T) {
 				}
 				idx = append(idx, fmt.Sprint(li))
 			}
-			return "idx=" + strings.Join(idx, ",") + " tries=" + fmt.Sprint(len(b.simulatedLpmTries))
+			out := "idx=" + strings.Join(idx, ",") + " tries=" + fmt.Sprint(len(b.simulatedLpmTries))
+			// Walk the production order of a (re)load: the kernel-side snapshot is taken BEFORE the
+			// userspace matcher is built and written to the kernel maps AFTER it
+			// (CommitPreparedDatapath / RebuildReloadDatapath).  Whatever BuildUserspace does, the sets
+			// the snapshot hands to the kernel key writer and the userspace tries must still be the
+			// sets the rules list — for few sets (serial build) and many (parallel build).
+			ruleSlots := make([]uint32, len(b.compiledRules))
+			for i := range b.compiledRules {
+				ruleSlots[i] = b.compiledRules[i].lpmIndex
+			}
+			if err := b.addFallback(config.FunctionOrString("direct")); err != nil {
+				return "err:fallback:" + err.Error()
+			}
+			nTries := len(b.simulatedLpmTries)
+			snap := b.KernspaceSnapshot()
+			m, err := b.BuildUserspace()
+			if err != nil {
+				return "err:build:" + err.Error()
+			}
+			if nTries > 4 {
+				stats.Inc("walk.parallel_build")
+			} else {
+				stats.Inc("walk.serial_build")
+			}
+			for i, s := range sets {
+				li := ruleSlots[i]
+				if int(li) >= len(snap.simulatedLpmTries) || int(li) >= len(m.lpmMatcher) {
+					return fmt.Sprintf("walk: slot %d of set %d missing after BuildUserspace", li, i)
+				}
+				var want []netip.Prefix
+				if ms, ok := macAt[i]; ok {
+					for _, mc := range ms.macs {
+						var a16 [16]byte
+						copy(a16[10:], mc[:])
+						want = append(want, netip.PrefixFrom(netip.AddrFrom16(a16), 128))
+					}
+					if ms.neg {
+						want = append(want, netip.PrefixFrom(netip.AddrFrom16([16]byte{}), 128))
+					}
+				} else {
+					want = s
+				}
+				keys := make([]_bpfLpmKey, 0, len(snap.simulatedLpmTries[li]))
+				for _, p := range snap.simulatedLpmTries[li] {
+					keys = append(keys, cidrToBpfLpmKey(p))
+				}
+				var probes []netip.Addr
+				for _, p := range want {
+					if len(probes) < 20 {
+						probes = append(probes, c12Probes(r, p)...)
+					}
+				}
+				for _, a := range probes {
+					a16 := a.As16()
+					sp := false
+					for _, p := range want {
+						if c12Contains(p, a) {
+							sp = true
+						}
+					}
+					um := m.lpmMatcher[li].HasPrefix(trie.Prefix2bin128(netip.PrefixFrom(netip.AddrFrom16(a16), 128)))
+					km := c12LpmLookup(keys, a16)
+					stats.Inc("walk.probe")
+					if um != sp || km != sp {
+						return fmt.Sprintf("walk: after snapshot+BuildUserspace set %d (slot %d) probe %s: listed=%v userspace=%v kernel-keys=%v", i, li, a, sp, um, km)
+					}
+				}
+			}
+			return out
 		}))
 	}
 	stats.Add("ops", st.N)
